@@ -372,7 +372,9 @@ def optStr (o : Option Bytes) : LuaVal :=
   | some b => .str b
   | none => .nil
 
-/-- `#v` for strings and tables; `none` = "attempt to get length of …" (script error) -/
+/-- `#v` for strings and tables; `none` = "attempt to get length of …" (script error).
+    For a table with holes Lua 5.1 may answer ANY border; this is the first one (lib/c12.py accepts
+    any border in that case and keeps `#` away from array replies with nil elements). -/
 def lenOf : LuaVal → Option LuaVal
   | .str b => some (.int b.length)
   | .table xs => some (.int (untilNil xs).length)
